@@ -67,7 +67,7 @@ _tape = st.lists(st.integers(0, 10000), min_size=1, max_size=30)
 
 
 def strategy(tier):
-    prog = st.one_of(gen_prog.programs(max_stmts=25), gen_macro.macro_programs(single_file=True, max_stmts=25))
+    prog = st.one_of(gen_prog.programs(max_stmts=25, with_control=True), gen_macro.macro_programs(single_file=True, max_stmts=25, with_control=True))
     valid = st.fixed_dictionaries({"kind": st.just("valid"), "prog": prog, "tape": _tape})
     corrupt = st.fixed_dictionaries({"kind": st.just("corrupt"), "prog": prog, "tape": _tape, "ops": st.lists(st.tuples(st.integers(0, 6), st.integers(0, 10000), st.integers(0, 10000)).map(list), min_size=1, max_size=3)})
     inject = st.fixed_dictionaries({"kind": st.just("inject"), "prog": gen_prog.programs(max_stmts=20), "err": st.sampled_from(ERRS), "at": st.integers(0, 10000)})
